@@ -97,12 +97,32 @@ func docs() []doc {
 			out = append(out, doc{[]objT{{"alpha", pa}, {"beta", pb}}})
 		}
 	}
+	// names that are valid, distinct identifiers but compare equal or adjacent under case folding, prefixes of
+	// each other, and names with digits / underscores
+	for _, names := range [][4]string{
+		{"nodeSpec", "nodespec", "apiVersion", "apiversion"},
+		{"abc", "abcd", "item", "items"},
+		{"a_b", "aB", "x1", "x10"},
+		{"zeta", "Alpha2", "Zed", "able"},
+	} {
+		for _, t := range []string{"integer", "ref"} {
+			mk := func(n string) propT {
+				p := propT{Name: n, Type: t}
+				if t == "ref" {
+					p.Ref = names[1]
+				}
+				return p
+			}
+			out = append(out, doc{[]objT{{names[0], []propT{mk(names[2]), mk(names[3])}}, {names[1], []propT{mk(names[3]), mk(names[2])}}}})
+		}
+	}
 	return out
 }
 
 var argForms = [][]string{
-	{"schema_input.yaml"},          // no ignore argument
-	{"schema_input.yaml", "beta"},  // ignore an object that may exist
+	{"schema_input.yaml"},         // no ignore argument
+	{"schema_input.yaml", "beta"}, // ignore an object that may exist
+	{"schema_input.yaml", "nodespec"},
 	{"schema_input.yaml", "Other"}, // ignore an object that does not exist
 }
 
